@@ -162,6 +162,12 @@ fn simplify_expr(e: &BodyExpr) -> Vec<BodyExpr> {
         BodyExpr::NewVar { .. } | BodyExpr::Memo { .. } | BodyExpr::LocalMemo { .. } => {
             out.push(BodyExpr::Const(0));
         }
+        BodyExpr::MapVia(inner, f, v) => {
+            out.push(BodyExpr::Map(inner.clone(), *f));
+            for s in simplify_expr(inner) {
+                out.push(BodyExpr::MapVia(Box::new(s), *f, *v));
+            }
+        }
         BodyExpr::Map(inner, f) => {
             out.push((**inner).clone());
             out.push(BodyExpr::Const(0));
@@ -282,13 +288,17 @@ pub fn simplify(a: &Action) -> Vec<Action> {
         _ => {}
     }
     match a {
-        Action::NewMap { src, f, fx } => {
+        Action::NewMap { src, f, fx, via } => {
+            let via = *via;
+            if via != 0 {
+                out.push(Action::NewMap { src: *src, f: *f, fx: fx.clone(), via: 0 });
+            }
             for v in simplify_fx(fx) {
-                out.push(Action::NewMap { src: *src, f: *f, fx: v });
+                out.push(Action::NewMap { src: *src, f: *f, fx: v, via });
             }
             if *f != F1::Id {
-                out.push(Action::NewMap { src: *src, f: F1::Id, fx: fx.clone() });
-                out.push(Action::NewMap { src: *src, f: F1::Inc, fx: fx.clone() });
+                out.push(Action::NewMap { src: *src, f: F1::Id, fx: fx.clone(), via });
+                out.push(Action::NewMap { src: *src, f: F1::Inc, fx: fx.clone(), via });
             }
         }
         Action::NewMapN { srcs, f, fx } => {
